@@ -370,6 +370,10 @@ class NewtonIteration(Equation):
 
         a = linearize(form, fields, trials=trials)
 
+        if a == 0:
+            msg = '> the form does not depend on the given fields: there is no Newton iteration'
+            raise ValueError(msg)
+
         trials, tests = a.variables
 
         lhs = a
